@@ -47,7 +47,7 @@ def gen(seed: int, tier: str) -> dict[str, Any]:
     horizon = rng.choice([150.0, 400.0]) if long_run else rng.choice([3.0, 8.0, 20.0])
     ops: list[dict[str, Any]] = []
     nfail = rng.choice([0, 1, 1, 2, 3, 5])
-    kinds = ["srv_disconnect", "srv_disconnect_foreign", "gw_crash", "send", "send", "cross"]
+    kinds = ["srv_disconnect", "srv_disconnect_foreign", "gw_crash", "send", "send", "cross", "send_cancel"]
     if transport in ("tcp", "secure"):
         kinds += ["tcp_reset", "tcp_close"]
     for _ in range(nfail):
@@ -56,13 +56,20 @@ def gen(seed: int, tier: str) -> dict[str, Any]:
         op: dict[str, Any] = {"t": t, "op": k}
         if k == "gw_crash":
             ops.append({"t": round(t + rng.choice([0.3, 2.0, 5.0, 30.0]), 6), "op": "gw_restart"})
+        if k == "send_cancel":
+            # the caller of a send gives up (asyncio.wait_for around it, shutdown of one of its tasks): the send task is
+            # cancelled while it waits - for the lock, a reconnect in progress, or its acknowledgement
+            op["d"] = rng.choice([0.0, 0.0005, 0.01, 0.3, 1.0, 1.5, 2.5])
+            if rng.random() < 0.6:
+                # ... preferably while the tunnel is re-establishing itself
+                ops.append({"t": round(max(0.0, t - rng.choice([0.0005, 0.002, 0.2, 0.9])), 6), "op": "srv_disconnect"})
         if k == "cross":
             op["lat"] = rng.choice([0.001, 0.002])
             op["off"] = rng.choice([-0.0005, -1e-6, 0.0, 0.0, 1e-6, 0.0005, 0.0015])
             op["iters"] = rng.choice([0, 1, 2, 3])
         ops.append(op)
     if mode == "xknx":
-        ops = [o for o in ops if o["op"] != "send"]
+        ops = [o for o in ops if o["op"] not in ("send", "send_cancel")]
     # user disconnect
     ud = rng.random()
     if ud < 0.55 and not any(o["op"] == "cross" for o in ops):
@@ -92,7 +99,10 @@ def gen(seed: int, tier: str) -> dict[str, Any]:
     ops.sort(key=lambda o: o["t"])
     cfg = {"transport": transport, "mode": mode, "auto_reconnect": rng.random() < 0.75,
            "auto_reconnect_wait": rng.choice([1, 3]), "local_port": rng.choice([0, 53000]),
-           "route_back": rng.random() < 0.2, "batch": 1 if rng.random() < 0.8 else 3, "horizon": horizon}
+           "route_back": rng.random() < 0.2, "batch": 1 if rng.random() < 0.8 else 3, "horizon": horizon,
+           # a one-shot listener ("wait until connected once") registered between the two recording callbacks: it
+           # unregisters itself from inside its notification
+           "oneshot_cb": rng.choice([None, None, "CONNECTED", "DISCONNECTED", "CONNECTING"])}
     return {"seed": seed, "tier": "S" if cfg["batch"] == 1 else "P", "config": cfg, "ops": ops, "gw": gwscript,
             "fault_policy": policy}
 
@@ -164,6 +174,16 @@ def run(plan: dict[str, Any]) -> dict[str, Any]:
             tunnel = None
         info["xknx"] = xknx
         xknx.connection_manager.register_connection_state_changed_cb(mk_cb(0, xknx))
+        if cfg.get("oneshot_cb"):
+            unreg: list[Any] = [None]
+
+            def oneshot(state):
+                if state.name == cfg["oneshot_cb"] and unreg[0] is not None:
+                    unreg[0]()
+                    unreg[0] = None
+                    R.extra_faults["one_shot_state_callback_unregistered_itself"] += 1
+
+            unreg[0] = xknx.connection_manager.register_connection_state_changed_cb(oneshot)
         xknx.connection_manager.register_connection_state_changed_cb(mk_cb(1, xknx))
         try:
             if tunnel is not None:
@@ -211,6 +231,11 @@ def run(plan: dict[str, Any]) -> dict[str, Any]:
             k = op["op"]
             if k == "send":
                 tasks.append(loop.create_task(do_send()))
+            elif k == "send_cancel":
+                tk = loop.create_task(do_send())
+                tasks.append(tk)
+                R.extra_faults["send_cancelled_by_caller"] += 1
+                loop.at(loop.time() + op["d"], tk.cancel, label="op")
             elif k == "srv_disconnect":
                 if gw.server_disconnect() is not None:
                     R.extra_faults["srv_disconnect"] += 1
